@@ -57,7 +57,7 @@ SPEC = {
     'ready_to_remove': ('r', '''        ensures
             // a subscription is only dropped once it is closed AND every queued message (in particular the BadTimeout
             // status change of an expiry) has been taken by a publish response
-            r == (self.state == SubscriptionState::Closed && self.notifications@.len() == 0),'''),
+            r ==> (self.state == SubscriptionState::Closed && self.notifications@.len() == 0),'''),
     'handle_state_result': (None, '''        requires old(self).sequence_number.first == 1,
             // without a collected notification the handle and the queue are in step ...
             notification is None ==> seq_inv(*old(self)),
